@@ -237,6 +237,13 @@ func genSearchScenario(rng *rand.Rand, profile string, thorough bool) *SearchSce
 			}
 			st.Req.Debug = rng.IntN(6) == 0
 			st.TwinDebugFlip = rng.IntN(6) == 0
+			if n < 100 && rng.IntN(24) == 0 {
+				// a search deep enough for depth-dependent heuristics, on a table small
+				// enough for signature collisions, compared with the Debug option flipped
+				st.Req.Limits = Limits{Nodes: -1, SoftNodes: pick(rng, []int{20000, 40000})}
+				st.SoftToHard = false
+				st.TwinDebugFlip = true
+			}
 			st.Req.NoCounters = noCounters
 			if rng.IntN(12) == 0 {
 				st.Clear = true
